@@ -12,6 +12,7 @@ import StathamModel.SerJson
 import StathamModel.Orderer
 import StathamModel.Py.Repr
 import StathamModel.Py.EvalTree
+import StathamModel.Py.EvalClass
 import StathamModel.Format
 import StathamModel.Inherit
 import StathamModel.Py.Module
@@ -241,7 +242,8 @@ def handle (req : Json) : R Json := do
         | none => true
       pure (Json.mkObj [("r", "ok"), ("typing", Json.arr (m.typing.map Json.str).toArray), ("maybe", Json.bool m.maybe),
         ("elements", Json.arr (m.elements.map Json.str).toArray), ("property", Json.bool m.property),
-        ("classes", Json.arr (m.classes.map encClass).toArray), ("names_in_scope", Json.bool inScope)])
+        ("classes", Json.arr (m.classes.map encClass).toArray), ("names_in_scope", Json.bool inScope),
+        ("execBack", Json.bool (Statham.PyEval.execBack els))])
   | "attr_names" => do
     let tables ← getTables req
     let names ← (← (← req.getObjVal? "names").getArr?).toList.mapM (·.getStr?)
